@@ -2,6 +2,7 @@
 from __future__ import annotations
 
 import ast
+import io
 import random
 import re
 import textwrap
@@ -151,6 +152,20 @@ def check_follow(acc, case, tree, follow, nfollow_lines_before):
     return True
 
 
+def _span_text(src, node):
+    """the source text between a node's coordinates (columns are UTF-8 byte offsets, lines as the entry points read them)"""
+    lines = [l.encode("utf-8", "surrogatepass") for l in io.StringIO(src, newline=None).readlines()]
+    a, b = node.lineno - 1, node.end_lineno - 1
+    if not (0 <= a <= b < len(lines) + 1):
+        return None
+    lines.append(b"")
+    if a == b:
+        raw = lines[a][node.col_offset : node.end_col_offset]
+    else:
+        raw = lines[a][node.col_offset :] + b"".join(lines[a + 1 : b]) + lines[b][: node.end_col_offset]
+    return raw.decode("utf-8", "surrogatepass")
+
+
 def run_case(acc, case):
     src = case["src"]
     out = base.parse(src, "exec")
@@ -182,6 +197,17 @@ def run_case(acc, case):
         if obs != case["expected"]:
             acc.violation("macro-arguments-not-verbatim", case, {"expected": case["expected"], "observed": obs})
             return
+        # the coordinates of an argument are those of its text
+        lf = src.replace("\r\n", "\n").replace("\r", "\n")
+        for c in calls:
+            for e in (c.args[1].elts if len(c.args) > 1 and isinstance(c.args[1], ast.Tuple) else ()):
+                if isinstance(e, ast.Constant) and isinstance(e.value, str):
+                    acc.count("argument_span_checks")
+                    got = _span_text(lf, e)
+                    if got != e.value:
+                        acc.violation("macro-argument-span-is-not-its-text", case, {"argument": e.value, "text_between_its_coordinates": got,
+                                                                                       "span": [e.lineno, e.col_offset, e.end_lineno, e.end_col_offset]})
+                        return
     elif case["kind"] in ("with", "with-oneline"):
         calls = macro_calls(tree, "__xonsh__.enter_macro")
         obs = [c.args[1].value if len(c.args) > 1 and isinstance(c.args[1], ast.Constant) else None for c in calls]
